@@ -46,5 +46,5 @@ if rows:
         live = [r for r in rows if r[0] not in overrides]
         own = sum(1 for r in live if r[1] in r[2])
         anyc = sum(1 for r in live if r[2])
-        fd.write("\n%d changes that break their property; %d caught by the check of their own property, %d by at least one check. %d further change(s) no longer break anything (see seeded/overrides.json) and every check stays silent on them.\n" % (len(live), own, anyc, len(rows) - len(live)))
+        fd.write("\n%d changes that break their property; %d caught by the check of their own property, %d by at least one check. %d further change(s) are set apart in seeded/overrides.json with the reason (made behaviour-preserving by a later repair of the repository, or needing inputs outside the property's stated domain); they are not counted.\n" % (len(live), own, anyc, len(rows) - len(live)))
 print("meta for", len(glob.glob(os.path.join(ROOT, "seeded", "C*-m*"))), "changes; matrix rows", len(rows))
